@@ -39,7 +39,9 @@ GROUPS = [
      "calc_base_matrix_1qutrit_"),
     ("quara/objects/state_typical.py", ["get_state_names", "is_valid_state_name", "generate_state_pure_state_vector_from_name", "generate_state_density_mat_from_name"],
      ("opaque", "get_state_", "_pure_state_vector")),
-    ("quara/objects/povm_typical.py", ["get_povm_names", "get_povm_names_rank1", "get_povm_names_not_rank1"], None),
+    ("quara/objects/povm_typical.py", ["get_povm_names", "get_povm_names_rank1", "get_povm_names_not_rank1",
+                                       "generate_povm_pure_state_vectors_from_name", "_generate_povm_matrices_from_single_name"],
+     ("opaque", "get_povm_", "_povm_matrices")),
     ("quara/objects/mprocess_typical.py", ["get_mprocess_names_type1", "get_mprocess_names_type2"], None),
     ("quara/objects/state_ensemble_typical.py", ["get_state_ensemble_names"], None),
 ]
@@ -49,6 +51,9 @@ GROUPS = [
 #   module-level one-argument vector functions -> atom "f:<arg>";   imported functions -> VApp "f" [args]
 OPAQUE_VEC1 = {"get_state_bell_pure_state_vector"}
 EXTERNAL = {"calc_mat_from_vector_adjoint"}
+
+
+IMPORTED = {}          # name -> parameter names of functions already translated from an earlier module
 
 
 class Unsupported(Exception):
@@ -293,6 +298,11 @@ class Fn:
                 if e.keywords or len(e.args) != len(params):
                     fail(e, "call of nested function %s" % f.id)
                 return self.exprs(e.args, bound, lambda xs: self.bind("(%s %s)" % (cname, " ".join(xs)), k))
+            if f.id not in self.mod.defs and f.id in IMPORTED:
+                params = IMPORTED[f.id]                    # a function translated from ANOTHER module earlier in GROUPS (from ... import f)
+                if e.keywords or len(e.args) != len(params):
+                    fail(e, "call of imported translated function %s" % f.id)
+                return self.exprs(e.args, bound, lambda xs: self.bind("(g_%s %s)" % (f.id, " ".join(xs)), k))
             if f.id in self.mod.defs:
                 callee = self.mod.defs[f.id]
                 params = [a.arg for a in callee.args.args]
@@ -550,6 +560,9 @@ def main():
             tables.append((len(order), methods))
         for r in roots:
             visit(r)
+        for name, (src_, _) in done.items():
+            if src_ == source:
+                IMPORTED[name] = [a.arg for a in mod.defs[name].args.args]
     with open(out, "w") as f:
         f.write("(* GENERATED by gen/c17_py2coq.py from %s - do not edit *)\n" % ", ".join(g[0] for g in GROUPS))
         f.write("From Coq Require Import String List ZArith QArith Qcanon Bool.\nFrom QV.Model Require Import C17_PySem.\nImport ListNotations.\nOpen Scope string_scope.\n\n")
